@@ -12,7 +12,7 @@
 (* Every explored behaviour is exported (REPLAY) and fed, token by token,  *)
 (* to the real tree builder; Trace_Tree then compares the results.         *)
 (***************************************************************************)
-EXTENDS HtmlTreeRules, TLC, Json
+EXTENDS TreeCanon, TLC, Json
 
 CONSTANTS MaxToks, VocabIdx, CtxIdx, Scripting, DoExport
 
@@ -76,29 +76,11 @@ Next == (\E i \in VocabIdx : Feed(i)) \/ Eof
 Spec == Init /\ [][Next]_vars
 
 -----------------------------------------------------------------------------
-Distinct(s) == \A i, j \in DOMAIN s : s[i] = s[j] => i = j
-Structure ==
-    /\ LinksConsistent(t.nodes)
-    /\ Distinct(t.open)
-    /\ \A i \in DOMAIN t.open : Known(t.nodes, t.open[i]) /\ Nd(t, t.open[i]).k = "el"
-    /\ (t.open # <<>> => IsHtmlNode(t, t.open[1], N_html))
-    /\ \A i \in DOMAIN t.afe : t.afe[i].m \/ (Known(t.nodes, t.afe[i].id) /\ Nd(t, t.afe[i].id).ns = "html"
-                                              /\ Nd(t, t.afe[i].id).local \in FormattingTags)
-    /\ (t.head # -1 => IsHtmlNode(t, t.head, N_head))
-    /\ (t.form # -1 => IsHtmlNode(t, t.form, N_form))
-    /\ (~t.stopped /\ t.mode \notin {"Initial", "BeforeHtml"} => t.open # <<>>)
-\* Noah's ark: never more than three equal entries after the last marker
-Ark == LET lm == LastMarker(t.afe) IN
-       \A i \in (lm + 1)..Len(t.afe) :
-           Cardinality({j \in (lm + 1)..Len(t.afe) : SameTag(t.afe[j].tok, t.afe[i].tok)}) <= 3
-\* the template insertion-mode stack has one entry per open template (plus the context template of a fragment)
-TemplateModes ==
-    ~t.stopped => Len(t.tmodes) = Cardinality({i \in DOMAIN t.open : IsHtmlNode(t, t.open[i], N_template)})
-                                  + (IF t.frag /\ IsHtmlNode(t, t.ctx, N_template) THEN 1 ELSE 0)
-\* at the end of a document parse: the canonical skeleton (C06) and merged text
-AtEof == (t.stopped /\ ~t.frag) => Skeleton(CanonNode(t.nodes, 0))
-FragEof == (t.stopped /\ t.frag) =>
-              LET d == CanonNode(t.nodes, 0) IN Len(d.ch) = 1 /\ IsHtmlNamed(d.ch[1], N_html) /\ TextOk(d.ch[1])
+Structure == StructureOk(t)
+Ark == ArkOk(t)
+TemplateModes == TemplateModesOk(t)
+AtEof == DocEofOk(t)
+FragEof == FragEofOk(t)
 
 TokOut(i) == IF i = 0 THEN [k |-> "eof"] ELSE Vocab[i]
 Export == (DoExport /\ t.stopped) =>
